@@ -236,66 +236,92 @@ def connect (env : Env) (net : Net) (addr : Nat) : Res :=
     | .ok (c, o) =>
       .ok ({ net1 with peers := update net1.peers pid ⟨c, addr, false⟩ }, .pid pid, liftOut addr pid o)
 
-/-- `Net::disconnect` (`wantUnconnected = false`) and `Net::reject` (`true`): the same code with
-opposite assertions on `is_unconnected()` -/
-def closePeer (wantUnconnected : Bool) (env : Env) (net : Net) (pid : Nat) (reason : Bytes) : Res :=
+/-! ### calls that concern one peer
+
+`let peer = &mut self.peers[pid]; … peer.conn.xyz(&mut cc(cb, peer.addr), …)`: look the peer up
+(panic "invalid pid"), run something on its connection, store the connection back.  The
+per-connection parts are separate functions so that the single-address reference (`refStep`) can
+run literally the same code on its own connection. -/
+
+/-- `self.peers[pid]`, a call on the peer's connection, the peer stays -/
+def modifyPeer (net : Net) (pid : Nat) (f : Peer → Except Fail (Conn × Ret × Conn6.Out)) : Res :=
   match lookup net.peers pid with
   | none => .error (.panic "invalid pid")
   | some p =>
-    if decide (p.conn.state = .unconnected) != wantUnconnected then
-      .error (.panic (if wantUnconnected then "reject: assert is_unconnected" else "disconnect: assert !is_unconnected"))
-    else
-      match Conn6.disconnect env p.conn reason with
+    match f p with
+    | .error e => .error e
+    | .ok (c, r, o) =>
+      .ok ({ net with peers := update net.peers pid { p with conn := c } }, r, liftOut p.addr pid o)
+
+/-- `self.peers[pid]`, a last call on the peer's connection, `remove_peer(pid)` -/
+def removePeer (net : Net) (pid : Nat) (f : Peer → Except Fail Conn6.Out) : Res :=
+  match lookup net.peers pid with
+  | none => .error (.panic "invalid pid")
+  | some p =>
+    match f p with
+    | .error e => .error e
+    | .ok o =>
+      match remove net.peers pid with
       | .error e => .error e
-      | .ok (_, o) =>
-        match remove net.peers pid with
-        | .error e => .error e
-        | .ok ps => .ok ({ net with peers := ps }, .unit, liftOut p.addr pid o)
+      | .ok ps => .ok ({ net with peers := ps }, .unit, liftOut p.addr pid o)
 
-def disconnect := closePeer false
-def reject := closePeer true
+/-- the connection part of `Net::disconnect` (`wantUnconnected = false`) and `Net::reject`
+(`true`): the same code with opposite assertions on `is_unconnected()` -/
+def peerClose (wantUnconnected : Bool) (env : Env) (reason : Bytes) (p : Peer) : Except Fail Conn6.Out :=
+  if decide (p.conn.state = .unconnected) != wantUnconnected then
+    .error (.panic (if wantUnconnected then "reject: assert is_unconnected" else "disconnect: assert !is_unconnected"))
+  else
+    match Conn6.disconnect env p.conn reason with
+    | .error e => .error e
+    | .ok (_, o) => .ok o
 
-/-- `Net::ignore` -/
+/-- `Net::disconnect` -/
+def disconnect (env : Env) (net : Net) (pid : Nat) (reason : Bytes) : Res :=
+  removePeer net pid (peerClose false env reason)
+
+/-- `Net::reject` -/
+def reject (env : Env) (net : Net) (pid : Nat) (reason : Bytes) : Res :=
+  removePeer net pid (peerClose true env reason)
+
+/-- `Net::ignore`: `remove_peer(pid)` and nothing else -/
 def ignore (net : Net) (pid : Nat) : Res :=
-  match remove net.peers pid with
+  removePeer net pid (fun _ => .ok {})
+
+/-- the connection part of `Net::send` -/
+def peerSend (env : Env) (data : Bytes) (vital : Bool) (p : Peer) : Except Fail (Conn × Ret × Conn6.Out) :=
+  match Conn6.send env p.conn data vital with
   | .error e => .error e
-  | .ok ps => .ok ({ net with peers := ps }, .unit, {})
+  | .ok (c, r, o) => .ok (c, .send r, o)
 
 /-- `Net::send` -/
 def send (env : Env) (net : Net) (pid : Nat) (data : Bytes) (vital : Bool) : Res :=
-  match lookup net.peers pid with
-  | none => .error (.panic "invalid pid")
-  | some p =>
-    match Conn6.send env p.conn data vital with
-    | .error e => .error e
-    | .ok (c, r, o) =>
-      .ok ({ net with peers := update net.peers pid { p with conn := c } }, .send r, liftOut p.addr pid o)
+  modifyPeer net pid (peerSend env data vital)
+
+/-- the connection part of `Net::flush` -/
+def peerFlush (env : Env) (p : Peer) : Except Fail (Conn × Ret × Conn6.Out) :=
+  match Conn6.flush env p.conn with
+  | .error e => .error e
+  | .ok (c, o) => .ok (c, .unit, o)
 
 /-- `Net::flush` -/
 def flush (env : Env) (net : Net) (pid : Nat) : Res :=
-  match lookup net.peers pid with
-  | none => .error (.panic "invalid pid")
-  | some p =>
-    match Conn6.flush env p.conn with
+  modifyPeer net pid (peerFlush env)
+
+/-- the connection part of `Net::accept`: feed the canned connect packet to the pending peer's
+connection; the warning sink is `Panic`, and the returned `ReceivePacket` is asserted to be empty -/
+def peerAccept (env : Env) (p : Peer) : Except Fail (Conn × Ret × Conn6.Out) :=
+  if p.conn.state ≠ .unconnected then .error (.panic "accept: assert is_unconnected")
+  else
+    match Conn6.feed env p.conn (fun _ => some (connectPacket p.token)) with
     | .error e => .error e
     | .ok (c, o) =>
-      .ok ({ net with peers := update net.peers pid { p with conn := c } }, .unit, liftOut p.addr pid o)
+      if !o.warns.isEmpty then .error (.panic "accept: warning on the canned connect packet")
+      else if !o.events.isEmpty then .error (.panic "accept: assert none.next().is_none()")
+      else .ok (c, .unit, o)
 
-/-- `Net::accept`: feed the canned connect packet to the pending peer's connection; the warning
-sink is `Panic`, and the returned `ReceivePacket` is asserted to be empty -/
+/-- `Net::accept` -/
 def accept (env : Env) (net : Net) (pid : Nat) : Res :=
-  match lookup net.peers pid with
-  | none => .error (.panic "invalid pid")
-  | some p =>
-    if p.conn.state ≠ .unconnected then .error (.panic "accept: assert is_unconnected")
-    else
-      match Conn6.feed env p.conn (fun _ => some (connectPacket p.token)) with
-      | .error e => .error e
-      | .ok (c, o) =>
-        if !o.warns.isEmpty then .error (.panic "accept: warning on the canned connect packet")
-        else if !o.events.isEmpty then .error (.panic "accept: assert none.next().is_none()")
-        else
-          .ok ({ net with peers := update net.peers pid { p with conn := c } }, .unit, liftOut p.addr pid o)
+  modifyPeer net pid (peerAccept env)
 
 /-- `Net::send_connless` (`ConnlessBuilder::send`) -/
 def sendConnless (net : Net) (addr : Nat) (data : Bytes) : Res :=
